@@ -96,6 +96,36 @@ type c18Terms struct {
 	// first encounter (deterministic, position-free).
 	ctx []*ssa.Call
 	ids map[string]int
+	// cur: parameter bindings of the frame whose values are being evaluated (see c18Frame)
+	cur   c18Env
+	saved []c18TermCtx
+	// subst: construction-time fields of the writer's state, replaced by the
+	// term the constructor stored (in terms of the constructor's inputs)
+	subst map[string]*c18T
+}
+
+type c18TermCtx struct {
+	cur c18Env
+	ctx []*ssa.Call
+}
+
+// enter/leave: evaluate terms in the context of an expanded frame.
+func (tt *c18Terms) enter(fr *c18Frame) {
+	tt.saved = append(tt.saved, c18TermCtx{tt.cur, tt.ctx})
+	tt.cur, tt.ctx = fr.env, append([]*ssa.Call{}, fr.chain...)
+}
+
+func (tt *c18Terms) leave() {
+	s := tt.saved[len(tt.saved)-1]
+	tt.saved = tt.saved[:len(tt.saved)-1]
+	tt.cur, tt.ctx = s.cur, s.ctx
+}
+
+func (tt *c18Terms) field(id FieldID) *c18T {
+	if s, ok := tt.subst[id.String()]; ok {
+		return s
+	}
+	return &c18T{Op: "field", Lit: id.String()}
 }
 
 func newC18Terms(p *Prog) *c18Terms {
@@ -103,8 +133,16 @@ func newC18Terms(p *Prog) *c18Terms {
 }
 
 func (tt *c18Terms) sourceID(c *ssa.Call) string {
+	// the source is identified by the frame that OWNS the instruction (a value computed in an outer
+	// frame and read through a parameter or a captured variable is still the same evaluation)
+	k := len(tt.ctx)
+	for ; k > 0; k-- {
+		if f := staticCallee(tt.ctx[k-1]); f != nil && origin(f) == origin(c.Parent()) {
+			break
+		}
+	}
 	key := ""
-	for _, x := range tt.ctx {
+	for _, x := range tt.ctx[:k] {
 		key += fmt.Sprintf("%p/", x)
 	}
 	key += fmt.Sprintf("%p", c)
@@ -118,7 +156,7 @@ type c18Env map[*ssa.Parameter]*c18T
 
 func c18Unknown(s string) *c18T { return &c18T{Op: "unknown", Lit: s} }
 
-func (tt *c18Terms) Term(v ssa.Value) *c18T { return tt.term(v, nil, 0) }
+func (tt *c18Terms) Term(v ssa.Value) *c18T { return tt.term(v, tt.cur, 0) }
 
 func (tt *c18Terms) term(v ssa.Value, env c18Env, depth int) *c18T {
 	if v == nil {
@@ -161,10 +199,14 @@ func (tt *c18Terms) term(v ssa.Value, env c18Env, depth int) *c18T {
 		}
 		return c18Unknown("freevar")
 	case *ssa.Field:
-		return &c18T{Op: "field", Lit: fieldIDOfField(x).String()}
+		return tt.field(fieldIDOfField(x))
 	case *ssa.UnOp:
 		if x.Op != token.MUL {
 			return c18Unknown("unop " + x.Op.String())
+		}
+		if m, _, _, ok := c18KeyElement(x); ok {
+			// element of a complete walk over the (sorted) keys of m: the key of this iteration
+			return &c18T{Op: "key", Args: []*c18T{rec(m)}}
 		}
 		return tt.load(x.X, env, depth)
 	case *ssa.BinOp:
@@ -202,6 +244,16 @@ func (tt *c18Terms) term(v ssa.Value, env c18Env, depth int) *c18T {
 		return c18Unknown("extract")
 	case *ssa.Call:
 		return tt.call(x, 0, env, depth)
+	case *ssa.Lookup:
+		// m[k] with k the key of the current iteration over the same map = the value of that iteration
+		if _, isMap := x.X.Type().Underlying().(*types.Map); isMap && !x.CommaOk {
+			m, k := rec(x.X), rec(x.Index)
+			if k.Op == "key" && len(k.Args) == 1 && k.Args[0].String() == m.String() {
+				return &c18T{Op: "val", Args: []*c18T{m}}
+			}
+			return &c18T{Op: "call", Lit: "lookup", Args: []*c18T{m, k}}
+		}
+		return c18Unknown("string index")
 	case *ssa.Alloc:
 		// address of a cell: describe by content
 		return &c18T{Op: "call", Lit: "addr", Args: []*c18T{tt.load(x, env, depth)}}
@@ -229,7 +281,7 @@ func typeOfInstr(v ssa.Value) string {
 func (tt *c18Terms) load(a ssa.Value, env c18Env, depth int) *c18T {
 	switch x := a.(type) {
 	case *ssa.FieldAddr:
-		return &c18T{Op: "field", Lit: fieldIDOfAddr(x).String()}
+		return tt.field(fieldIDOfAddr(x))
 	case *ssa.Alloc:
 		var alts []*c18T
 		for _, r := range refs(x) {
@@ -374,6 +426,9 @@ func (tt *c18Terms) call(c *ssa.Call, idx int, env c18Env, depth int) *c18T {
 	// in-module pure helper: substitute
 	if fn := staticCallee(c); fn != nil && tt.p.InModule(fn) && len(fn.Blocks) > 0 && depth < 8 {
 		nenv := c18Env{}
+		for k, v := range env {
+			nenv[k] = v
+		}
 		for i, pa := range fn.Params {
 			if i < len(c.Call.Args) {
 				nenv[pa] = tt.term(c.Call.Args[i], env, depth+1)
@@ -381,11 +436,24 @@ func (tt *c18Terms) call(c *ssa.Call, idx int, env c18Env, depth int) *c18T {
 		}
 		var alts []*c18T
 		tt.ctx = append(tt.ctx, c)
+		var all, okOnly []*c18T
 		allInstrs(fn, func(in ssa.Instruction) {
 			if ret, ok := in.(*ssa.Return); ok && idx < len(ret.Results) {
-				alts = append(alts, tt.term(ret.Results[idx], nenv, depth+1))
+				tv := tt.term(ret.Results[idx], nenv, depth+1)
+				all = append(all, tv)
+				// (value, error) results: the value of a return that yields a non-nil error is not
+				// what callers use (they test the error first)
+				n := len(ret.Results)
+				if idx < n-1 && c18IsErrorType(ret.Results[n-1]) && c18ReturnErrKind(ret, nil) == "nonnil" {
+					return
+				}
+				okOnly = append(okOnly, tv)
 			}
 		})
+		alts = all
+		if len(okOnly) > 0 {
+			alts = okOnly
+		}
 		tt.ctx = tt.ctx[:len(tt.ctx)-1]
 		if len(alts) > 0 {
 			return c18Phi(alts)
@@ -413,6 +481,53 @@ func c18Cat(a, b *c18T) *c18T {
 	}
 	if len(out) == 1 {
 		return out[0]
+	}
+	// a + "/" + b  (string(filepath.Separator) is the constant "/")  ==  filepath.Join(a, b) for clean operands
+	var segs [][]*c18T
+	cur := []*c18T{}
+	sep := false
+	for _, x := range out {
+		if x.Op == "lit" && strings.Contains(x.Lit, "/") {
+			parts := strings.Split(x.Lit, "/")
+			for i, part := range parts {
+				if i > 0 {
+					segs = append(segs, cur)
+					cur = []*c18T{}
+					sep = true
+				}
+				if part != "" {
+					cur = append(cur, &c18T{Op: "lit", Lit: part})
+				}
+			}
+			continue
+		}
+		cur = append(cur, x)
+	}
+	segs = append(segs, cur)
+	for _, s := range segs {
+		if len(s) == 0 {
+			sep = false // leading/trailing/double separator: leave the concatenation as it is (an outer + may complete it)
+		}
+	}
+	if sep {
+		j := &c18T{Op: "join"}
+		for _, s := range segs {
+			switch len(s) {
+			case 0:
+			case 1:
+				if s[0].Op == "join" {
+					j.Args = append(j.Args, s[0].Args...)
+				} else {
+					j.Args = append(j.Args, s[0])
+				}
+			default:
+				j.Args = append(j.Args, &c18T{Op: "cat", Args: s})
+			}
+		}
+		if len(j.Args) == 1 {
+			return j.Args[0]
+		}
+		return j
 	}
 	return &c18T{Op: "cat", Args: out}
 }
